@@ -2,15 +2,19 @@
    setClaimCalldata (`corr`), and the property itself evaluated on those observations with a naive reference
    (`spec`).  Definitions only. *)
 From Coq Require Import NArith List Bool.
-From Verif Require Import Base.Bytes Base.Hash Model.FindCall.
+From Verif Require Import Base.Bytes Base.FastBytes Base.Hash Model.FindCall Model.Abi.
 Import ListNotations.
 Open Scope N_scope.
 
 (* ---- execution instance of the abstract input ----
    x_sel  : the first four bytes of the real calldata the harness put on the wire (None: shorter than 4 bytes);
    x_body : for calldata the harness built by ABI-packing a claim with the bindings of generation g:
-            (g, global index, details); None for bytes that are not a packed claim. *)
-Record xinput := { x_sel : option N; x_body : option (gen * N * details) }.
+            (g, global index, details); None for bytes that are not a packed claim.
+   x_raw  : the bytes on the wire, given for frames addressed to the bridge ([] elsewhere: findCall never looks at the
+            input of other frames). THE MODEL RUNS ON x_raw (Model/Abi.v: byte-level ABI decoding); x_sel / x_body are the
+            harness's independent description (what it packed, or what go-ethereum reads by argument name from mutated
+            calldata) and are used by `spec` and by `abi_agree` only. *)
+Record xinput := { x_sel : option N; x_body : option (gen * N * details); x_raw : bytes }.
 Definition x_selector (i : xinput) : option N := x_sel i.
 Definition x_unpack (g : gen) (i : xinput) : option (N * details) :=
   match x_body i with
@@ -22,7 +26,13 @@ Definition x_hash2 (a b : N) : N := keccakN (be 32 a ++ be 32 b).
 
 Definition xcall := call xinput.
 Definition XC (to from : N) (err : bool) (i : xinput) (l : list xcall) : xcall := Call to from err i l.
-Definition XI (s : option N) (b : option (gen * N * details)) : xinput := {| x_sel := s; x_body := b |}.
+Definition XI (s : option N) (b : option (gen * N * details)) : xinput := {| x_sel := s; x_body := b; x_raw := [] |}.
+Definition XR (s : option N) (b : option (gen * N * details)) (raw : bytes) : xinput := {| x_sel := s; x_body := b; x_raw := raw |}.
+(* calldata written as selector, 32-byte words, remaining bytes (compact in the case files) *)
+Definition raw_of (sel : N) (words : list N) (tail : bytes) : bytes := be_fast 4 sel ++ flat_map (be_fast 32) words ++ tail.
+(* the byte-level instance of the ABI layer *)
+Definition r_selector (i : xinput) : option N := b_selector (x_raw i).
+Definition r_unpack (g : gen) (i : xinput) : option (N * details) := b_unpack g (x_raw i).
 Definition DT (ler rer : list N) (mer rr dn : N) (md : nat * N) : details :=
   {| d_proof_ler := ler; d_proof_rer := rer; d_mer := mer; d_rer := rr; d_dest_net := dn; d_metadata := md |}.
 Definition CL (gi : N) (rest : list N) (from : N) (ler rer : list N) (mer rr ger dn : N) (md : nat * N) (msg : bool) : claim :=
@@ -63,8 +73,8 @@ Definition claim_eqb (a b : claim) : bool :=
 
 (* ---- model == implementation ? ---- *)
 Definition model_run (k : case20) : result xinput * claim :=
-  set_claim_calldata xinput x_selector x_unpack x_hash2 (k_trace k) (k_bridge k) (k_claim0 k).
-Definition corr (k : case20) : bool :=
+  set_claim_calldata xinput r_selector r_unpack x_hash2 (k_trace k) (k_bridge k) (k_claim0 k).
+Definition corr_run (k : case20) : bool :=
   let '(r, cl) := model_run k in (code_of r =? k_err k) && claim_eqb cl (k_claim1 k).
 
 (* ---- the property, evaluated on what the implementation did ----
@@ -80,6 +90,24 @@ Definition ref_claim_of (i : xinput) : option (bool * bool * N * details) :=
     else None
   | _, _ => None
   end.
+
+(* ---- the Gallina ABI decoder agrees with the independent description of every bridge-addressed frame ---- *)
+Definition details_eqb (a b : details) : bool :=
+  listN_eqb (d_proof_ler a) (d_proof_ler b) && listN_eqb (d_proof_rer a) (d_proof_rer b) &&
+  (d_mer a =? d_mer b) && (d_rer a =? d_rer b) && (d_dest_net a =? d_dest_net b) && bn_eqb' (d_metadata a) (d_metadata b).
+Definition frame_agrees (i : xinput) : bool :=
+  match ref_claim_of i, decode_claim xinput r_selector r_unpack i with
+  | None, None => true
+  | Some (etrog, m, gi, d), Some (g, m', gi', d') =>
+      Bool.eqb etrog (gen_eqb g Etrog) && Bool.eqb m m' && (gi =? gi') && details_eqb d d'
+  | _, _ => false
+  end.
+Definition abi_agree (k : case20) : bool :=
+  match k_trace k with
+  | None => true
+  | Some root => forallb (fun d => negb (c_to d =? k_bridge k) || frame_agrees (c_inp d)) (all_calls xinput root)
+  end.
+Definition corr (k : case20) : bool := corr_run k && abi_agree k.
 
 (* the property's quantifier: every call addressed to the bridge (anywhere in the tree) is a claim call *)
 Definition in_quantifier (bridge : N) (root : xcall) : bool :=
